@@ -153,6 +153,28 @@ def _ctor_body(L, span, bad) -> None:
                         bad.append(f'model dtype {np.dtype(mdtype)}: variable {n} initialised from <{how} of {vk}> has dtype {a.dtype}, shape {a.shape}')
                 if m.size != 2 * L or np.asarray(m.values).shape != ((2, L) if L or True else (2, 0)):
                     bad.append(f'values / size after construction: {np.asarray(m.values).shape}, {m.size}')
+        # `values` stacks the series as they are (NumPy's common dtype), whatever the model's default dtype
+        if mdtype is not object and L >= 1:
+            r = _run(lambda: M2(span, dtype=mdtype))
+            if r[0] == 'ret':
+                m = r[1]
+                other = float if np.dtype(mdtype).kind in 'iu' else np.float64
+                m.add_variable('F', 1.5, dtype=other)
+                v = np.asarray(m.values)
+                want = np.array([m[n] for n in m.names])
+                if v.dtype != want.dtype or v.shape != want.shape or not np.array_equal(v, want):
+                    bad.append(f'values of a {np.dtype(mdtype)} model holding a {np.dtype(other)} variable: dtype {v.dtype}, expected the common dtype {want.dtype} with the same numbers')
+        for mdt2 in ((int,) if mdtype is float else ()):
+            r = _run(lambda: M2(span, dtype=mdt2))
+            if r[0] == 'ret' and L >= 1:
+                m = r[1]
+                m.add_variable('F', 1.5, dtype=float)
+                v = np.asarray(m.values)
+                if v.dtype.kind != 'f' or not np.any(v == 1.5):
+                    bad.append(f'values of an int model holding a float variable lost the fraction: dtype {v.dtype}')
+                flat = _run(lambda: setattr(m, 'values', np.zeros(m.size)))
+                if flat[0] != 'exc':
+                    bad.append('values = <flat array with the right number of elements> was accepted (the shape is variables x periods)')
         wrong = _run(lambda: M2(span, dtype=mdtype, X=np.zeros(L + 1)))
         if wrong[0] != 'exc' and L >= 1:    # (a one-element array stretches over an empty span: nothing to fit, nothing refused)
             bad.append(f'initial array of length {L + 1} accepted for a span of {L} periods')
